@@ -2,6 +2,7 @@ from typing import Callable, Awaitable, Coroutine, Set
 import asyncio
 
 from .base_runner import BaseRunner, OrphanedReturn
+from ._verif import point
 
 
 class AsyncioRunner(BaseRunner):
@@ -33,6 +34,7 @@ class AsyncioRunner(BaseRunner):
     def _setup_payload(self, payload: Callable[[], Awaitable]):
         task = self.asyncio_loop.create_task(self._monitor_payload(payload))
         self._tasks.add(task)
+        point("a.setup")
 
     async def _monitor_payload(self, payload: Callable[[], Awaitable]):
         try:
@@ -48,6 +50,7 @@ class AsyncioRunner(BaseRunner):
         self._tasks.discard(asyncio.current_task())
         if not self._payload_failure.done():
             self._payload_failure.set_exception(failure)
+            point("a.fail.set")
 
     async def manage_payloads(self):
         await self._payload_failure
@@ -55,6 +58,7 @@ class AsyncioRunner(BaseRunner):
     async def aclose(self):
         if self._stopped.is_set() and not self._tasks:
             return
+        point("a.aclose.begin")
         # let the manage task wake up and exit
         if not self._payload_failure.done():
             self._payload_failure.set_result(None)
